@@ -54,9 +54,9 @@ T = {
  "C10c": ("C10", "isotropic structure then setRange(0,r)/setScale(0,s) only: stale isotropy flag (incremental update differs from fresh build)", "C10 quick (after adding the incr_* parts: incrementally updated objects vs fresh ones; missed before)", "incr:CovAniso(spherical):isIsotropic"),
  "C11c": ("C11", "eigen-decomposition cached on one matrix object and not invalidated by addScalar/addScalarDiag/prodScalar/addMatInPlace", "C11 quick (after adding part history_matrix on one live object; missed before)", "history:dense:computeEigen:after:addScalar"),
  "C12c": ("C12", "asymmetric estimator cross term with tolang >= 90 and codir not +x (pair orientation by sample order)", "C12 quick (after fixing one orientation convention per run + mirror-direction relation; missed before)", "vario:gg:covariance:regular:cross"),
- "C15c": ("C15", "SPDE kriging with a V column, a selection masking a non-trailing sample and non-constant V", "MISSED by C15 quick at the time of seeding (layout axes not crossed); harness extension requested", ""),
+ "C15c": ("C15", "SPDE kriging with a V column, a selection masking a non-trailing sample and non-constant V", "C15 quick (after crossing the layout axes and rebuilding data/variances/RHS independently; missed before)", "solve:data-variances-not-those-of-the-active-samples:cholesky"),
  "C16c": ("C16", "getCoordinate of a node, in-place geometry setter, getCoordinate of the same node (stale memo)", "C16 quick (after adding the history_grid/dbgrid parts; missed before)", "history:getCoordinate:after-in-place-edit"),
- "C17c": ("C17", "constraint declared through addItemFromParamId with iv1 >= 1 (Range V/W, 2nd/3rd angle) on an anisotropic fit", "MISSED by C17 quick at the time of seeding (one declaration route, component 0); harness extension requested", ""),
+ "C17c": ("C17", "constraint declared through addItemFromParamId with iv1 >= 1 (Range V/W, 2nd/3rd angle) on an anisotropic fit", "C17 quick (after adding part constraint_routes: every declaration route x element x iv1; missed before)", "constraint-route:addItemFromParamId:angle:iv1=2:not-applied"),
  "C09c": ("C09", "CSV file of 0, 1 or 2 bytes (loader never returns)", "C09 quick", "PolygonsCSV:truncated:exception-or-exhaustion"),
  "C13c": ("C13", "conditional multivariate simtub, heterotopic datum (earlier variable undefined) on a target, model with nugget", "C13 quick (after adding part simtub_hetero; missed before)", "simtub:hetero:grid-target"),
  "C14c": ("C14", "turning bands (spectral method structures) on a grid whose selection masks a node followed by an active node in the same row", "MISSED by C14 quick at the time of seeding; harness extension requested", ""),
